@@ -299,4 +299,9 @@ def specRun (s : RHeap) : List Op → RHeap
   | [] => s
   | op :: ops => specRun (specStep s op).1 ops
 
+/-- the outcomes of a history, line by line -/
+def specTrace (s : RHeap) : List Op → List Out
+  | [] => []
+  | op :: ops => (specStep s op).2 :: specTrace (specStep s op).1 ops
+
 end Pyg
